@@ -349,7 +349,7 @@ def snap(state: FockState, instruction: Instruction, shots: int) -> List[Branch]
     mode = instruction.modes[0]
     theta = instruction._get_all_params(state._connector)["theta"]
 
-    if state._config.validate and len(theta) != cutoff:
+    if state._config.validate and len(theta) < cutoff:
         raise InvalidParameter(
             f"Length of SNAP parameter must be equal to cutoff: {cutoff},"
             f" but got {len(theta)}."
